@@ -5,8 +5,8 @@ import c13ref as R
 
 META = {
     "category": "proof",
-    "text": "Lean theorems over two executable models of src/liblzma/common/index.c: an abstract list-of-records spec (Index = List StreamRec) and a concrete model with Stream/group trees, cumulative sums, number bases, the Check mask, the count-driven tree append, cat/dup and the iterator: the concrete model refines the spec for every history of append/stream_flags/stream_padding/cat/dup, failing operations leave the index unchanged, the sequential tree append keeps the in-order sequence, locate returns the unique non-empty Block containing the offset, the Index field codec round-trips; scalar kernels and constants are regenerated from the source and bridged by `decide`. Tie: random op histories (values near every limit, group boundaries 512+-1, stream-tree rotation counts 2^k+-1, empty Blocks, malformed Index fields, generated multi-Stream files for lzma_file_info_decoder with many read sizes) run against the real lzma_index_* API, the Lean model driver and an independent Python list-of-records reference; all getters and full iterations must agree. Real multi-Stream/multi-Block files made by the repo's xz: every Block located through the file-info index is decoded on its own (by Python's lzma module) and must equal its range of the data; `xz --list --robot -vv` must show the same figures.",
-    "note": "Trusted: Lean kernel + propext/Classical.choice/Quot.sound; the probe harness/gen_c13.c; the harness; the C compiler; memory safety of the C code only as observed by ASan/UBSan/asserts. LZMA_BACKWARD_SIZE_MAX rules are proved in the model and bridged as constants but cannot be reached by a run (needs ~10^9 Records). See evidence for which theorems are partial.",
+    "text": "Lean theorems over two executable models of src/liblzma/common/index.c: an abstract list-of-records spec (Index = List StreamRec) and a concrete model with Stream/group trees, cumulative sums, number bases, the Check mask, the count-driven tree append, cat/dup and the iterator: the concrete model refines the spec for every history of append/stream_flags/stream_padding/cat/dup, failing operations leave the index unchanged, the sequential tree append keeps the in-order sequence and (for every count < 2^32) the exact spine shape with height <= floor(log2 count)+1, the concrete locate (tree descent + binary search) and the concrete iterator (all modes, ITER_METHOD_* indirection, also across an append/cat between two next calls) equal the spec's locate/iterate, locate returns the unique non-empty Block containing the offset, the Index field codec round-trips, and the backward parser of file_info.c returns exactly the cat of the Streams' indexes (flags and padding set) on every well-formed multi-Stream file built from the container encoders; scalar kernels and constants are regenerated from the source and bridged by `decide`. Tie: random op histories (values near every limit, group boundaries 512+-1, stream-tree rotation counts 2^k+-1, empty Blocks, malformed Index fields, generated multi-Stream files for lzma_file_info_decoder with many read sizes) run against the real lzma_index_* API, the Lean model driver and an independent Python list-of-records reference; all getters and full iterations must agree. Real multi-Stream/multi-Block files made by the repo's xz: every Block located through the file-info index is decoded on its own (by Python's lzma module) and must equal its range of the data; `xz --list --robot -vv` must show the same figures.",
+    "note": "Trusted: Lean kernel + propext/Classical.choice/Quot.sound; the probe harness/gen_c13.c; the harness; the C compiler; memory safety of the C code only as observed by ASan/UBSan/asserts. LZMA_BACKWARD_SIZE_MAX rules are proved in the model and bridged as constants but cannot be reached by a run (needs ~10^9 Records). Not proved: random_access (needs the Block decoder composed with the index; kept as `random_access_statement`), the chunked/seeking state machine of file_info.c (only whole-file semantics in Lean), parent links of the tree (not in the functional model).",
     "technique": "Lean 4 proof over an executable model + regenerated constants/kernels + differential correspondence + Python reference oracle",
 }
 
